@@ -88,6 +88,25 @@ func SortedMapKeys(rv reflect.Value) []reflect.Value {
 	return keys
 }
 
+// A MapEntry is a key of a map together with its value.
+type MapEntry struct {
+	Key, Value reflect.Value
+}
+
+// SortedMapEntries returns the entries of the map rv in the order of SortedMapKeys.
+// The pairs are taken from one iteration over the map: looking a key up again with
+// MapIndex does not find a NaN key.
+func SortedMapEntries(rv reflect.Value) []MapEntry {
+	entries := make([]MapEntry, 0, rv.Len())
+	for it := rv.MapRange(); it.Next(); {
+		entries = append(entries, MapEntry{it.Key(), it.Value()})
+	}
+	sort.SliceStable(entries, func(i, j int) bool {
+		return mapKeyLess(entries[i].Key, entries[j].Key)
+	})
+	return entries
+}
+
 func mapKeyLess(a, b reflect.Value) bool {
 	for a.Kind() == reflect.Interface && !a.IsNil() {
 		a = a.Elem()
@@ -100,16 +119,31 @@ func mapKeyLess(a, b reflect.Value) bool {
 	}
 	switch a.Kind() {
 	case reflect.Bool:
-		return !a.Bool() && b.Bool()
+		if a.Bool() != b.Bool() {
+			return !a.Bool() && b.Bool()
+		}
 	case reflect.Int, reflect.Int8, reflect.Int16, reflect.Int32, reflect.Int64:
-		return a.Int() < b.Int()
+		if a.Int() != b.Int() {
+			return a.Int() < b.Int()
+		}
 	case reflect.Uint, reflect.Uint8, reflect.Uint16, reflect.Uint32, reflect.Uint64, reflect.Uintptr:
-		return a.Uint() < b.Uint()
+		if a.Uint() != b.Uint() {
+			return a.Uint() < b.Uint()
+		}
 	case reflect.Float32, reflect.Float64:
-		return a.Float() < b.Float()
+		if a.Float() != b.Float() {
+			return a.Float() < b.Float()
+		}
 	case reflect.String:
-		return a.String() < b.String()
+		if a.String() != b.String() {
+			return a.String() < b.String()
+		}
 	default:
-		return fmt.Sprint(a) < fmt.Sprint(b)
+		if sa, sb := fmt.Sprint(a), fmt.Sprint(b); sa != sb {
+			return sa < sb
+		}
 	}
+	// the same kind and the same value: distinct keys of different named types
+	// (time.January and time.Monday in a map[any]any) are ordered by type
+	return a.Type().String() < b.Type().String()
 }
